@@ -122,6 +122,120 @@ theorem unscale_scale_cost (kind : PrecKind) (pre : Precond K n p m) (h : InvCoh
   · rfl
   · rw [← mul_assoc, mul_comm pre.cInv, h.c, one_mul]
 
+theorem unscale_scale_dual_ub (kind : PrecKind) (pre : Precond K n p m) (h : InvCoherent pre) (z : Vec K n) :
+    pre.unscaleDualUb kind (pre.scaleDualUb kind z) = z := by
+  unfold Precond.unscaleDualUb Precond.scaleDualUb headMap
+  split
+  · rfl
+  · apply Vector.ext
+    intro i hi
+    simp only [Vector.getElem_ofFn, Fin.getElem_fin]
+    split
+    · rename_i hlt
+      have h1 := h.dub ⟨i, hi⟩ hlt
+      have h2 := h.c
+      simp only [Fin.getElem_fin] at h1
+      calc z[i] * pre.c * pre.dubInv[i] * pre.cInv * pre.dub[i]
+          = z[i] * (pre.c * pre.cInv) * (pre.dub[i] * pre.dubInv[i]) := by ring
+        _ = z[i] := by rw [h1, h2]; ring
+    · rfl
+
+theorem unscale_scale_slack_ub (kind : PrecKind) (pre : Precond K n p m) (h : InvCoherent pre) (s : Vec K n) :
+    pre.unscaleSlackUb kind (pre.scaleSlackUb kind s) = s := by
+  unfold Precond.unscaleSlackUb Precond.scaleSlackUb headMap
+  split
+  · rfl
+  · apply Vector.ext
+    intro i hi
+    simp only [Vector.getElem_ofFn, Fin.getElem_fin]
+    split
+    · rename_i hlt
+      have h1 := h.dub ⟨i, hi⟩ hlt
+      simp only [Fin.getElem_fin] at h1
+      rw [mul_assoc, h1, mul_one]
+    · rfl
+
+theorem unscale_scale_slack_ineq (kind : PrecKind) (pre : Precond K n p m) (h : InvCoherent pre) (s : Vec K m) :
+    pre.unscaleSlackIneq kind (pre.scaleSlackIneq kind s) = s := by
+  unfold Precond.unscaleSlackIneq Precond.scaleSlackIneq
+  split
+  · rfl
+  · apply Vector.ext
+    intro i hi
+    simp only [Vector.getElem_ofFn, Fin.getElem_fin]
+    have h1 := h.dz ⟨i, hi⟩
+    simp only [Fin.getElem_fin] at h1
+    rw [mul_assoc, h1, mul_one]
+
+theorem unscale_scale_primal_res_eq (kind : PrecKind) (pre : Precond K n p m) (h : InvCoherent pre) (r : Vec K p) :
+    pre.unscalePrimalResEq kind (pre.scalePrimalResEq kind r) = r := by
+  unfold Precond.unscalePrimalResEq Precond.scalePrimalResEq
+  split
+  · rfl
+  · apply Vector.ext
+    intro i hi
+    simp only [Vector.getElem_ofFn, Fin.getElem_fin]
+    have h1 := h.dy ⟨i, hi⟩
+    simp only [Fin.getElem_fin] at h1
+    rw [mul_assoc, h1, mul_one]
+
+theorem unscale_scale_primal_res_ineq (kind : PrecKind) (pre : Precond K n p m) (h : InvCoherent pre) (r : Vec K m) :
+    pre.unscalePrimalResIneq kind (pre.scalePrimalResIneq kind r) = r := by
+  unfold Precond.unscalePrimalResIneq Precond.scalePrimalResIneq
+  split
+  · rfl
+  · apply Vector.ext
+    intro i hi
+    simp only [Vector.getElem_ofFn, Fin.getElem_fin]
+    have h1 := h.dz ⟨i, hi⟩
+    simp only [Fin.getElem_fin] at h1
+    rw [mul_assoc, h1, mul_one]
+
+theorem unscale_scale_primal_res_lb (kind : PrecKind) (pre : Precond K n p m) (h : InvCoherent pre) (r : Vec K n) :
+    pre.unscalePrimalResLb kind (pre.scalePrimalResLb kind r) = r := by
+  unfold Precond.unscalePrimalResLb Precond.scalePrimalResLb headMap
+  split
+  · rfl
+  · apply Vector.ext
+    intro i hi
+    simp only [Vector.getElem_ofFn, Fin.getElem_fin]
+    split
+    · rename_i hlt
+      have h1 := h.dlb ⟨i, hi⟩ hlt
+      simp only [Fin.getElem_fin] at h1
+      rw [mul_assoc, h1, mul_one]
+    · rfl
+
+theorem unscale_scale_primal_res_ub (kind : PrecKind) (pre : Precond K n p m) (h : InvCoherent pre) (r : Vec K n) :
+    pre.unscalePrimalResUb kind (pre.scalePrimalResUb kind r) = r := by
+  unfold Precond.unscalePrimalResUb Precond.scalePrimalResUb headMap
+  split
+  · rfl
+  · apply Vector.ext
+    intro i hi
+    simp only [Vector.getElem_ofFn, Fin.getElem_fin]
+    split
+    · rename_i hlt
+      have h1 := h.dub ⟨i, hi⟩ hlt
+      simp only [Fin.getElem_fin] at h1
+      rw [mul_assoc, h1, mul_one]
+    · rfl
+
+theorem unscale_scale_dual_res (kind : PrecKind) (pre : Precond K n p m) (h : InvCoherent pre) (r : Vec K n) :
+    pre.unscaleDualRes kind (pre.scaleDualRes kind r) = r := by
+  unfold Precond.unscaleDualRes Precond.scaleDualRes
+  split
+  · rfl
+  · apply Vector.ext
+    intro i hi
+    simp only [Vector.getElem_ofFn, Fin.getElem_fin]
+    have h1 := h.dx ⟨i, hi⟩
+    have h2 := h.c
+    simp only [Fin.getElem_fin] at h1
+    calc r[i] * pre.c * pre.dx[i] * pre.cInv * pre.dxInv[i]
+        = r[i] * (pre.c * pre.cInv) * (pre.dx[i] * pre.dxInv[i]) := by ring
+      _ = r[i] := by rw [h1, h2]; ring
+
 /-- the preconditioner right after `init` is coherent (all scalings 1) -/
 theorem init_invCoherent (d : Data K n p m) : InvCoherent (Precond.init d) := by
   constructor <;> simp [Precond.init, Vec.const]
